@@ -179,3 +179,7 @@ func (s *BadgerStore) VDbGetRepertoire() (map[string]*peers.Peer, error) {
 	return s.dbGetRepertoire()
 }
 func (s *BadgerStore) VInmem() *InmemStore { return s.inmemStore }
+
+// VDbSetEvents writes events straight to the database (the transaction
+// BadgerStore.SetEvent runs after the cache update).
+func (s *BadgerStore) VDbSetEvents(events []*Event) error { return s.dbSetEvents(events) }
